@@ -15,7 +15,7 @@ RULE = ('random operation sequences (3-15) over {fabric.start, fabric.stop, fabr
         'subscribers once; after stop(); start() a fresh subscription + publication is delivered; an active object that wakes while the '
         'fabric is stopped halts without dispatching; no operation deadlocks. distinct_nontrivial = distinct operation-kind sequences')
 CASES = {'quick': 2000, 'thorough': 100000}
-BUDGET = {'quick': 50, 'thorough': 300}
+BUDGET = {'quick': 150, 'thorough': 300}
 REQUIRE = {'sequences': 800, 'ops': 8000, 'repeated_start': 300, 'restart_after_stop': 300, 'clear_while_running': 200, 'object_wakes_while_stopped': 60, 'start_after_partial_failure': 100}
 ASSUME = ['operations are issued by one thread, each followed by quiescence; publications made while the fabric is stopped are not constrained']
 ANNOUNCE_CASES = True
